@@ -45,6 +45,7 @@ type upReq struct {
 	hasSkip    bool // splice: do not upload chunk skipChunk beforehand
 	noChunkUp  bool // splice: the chunks are resident already, upload none
 	skipChunk  int
+	mirrors    string // fetch: "" one URI; "dead-last" [good, 404]; "dead-first" [404, good]; "two-good" [good, good]
 }
 
 type upRes struct {
@@ -328,6 +329,15 @@ func (f *fx) upload(u upReq) upRes {
 		}
 		url := origin().put("/blob/"+nextUUID(), ob)
 		req := &asset.FetchBlobRequest{Uris: []string{url}}
+		dead := origin().srv.URL + "/no-such-object/" + nextUUID()
+		switch u.mirrors {
+		case "dead-last":
+			req.Uris = []string{url, dead}
+		case "dead-first":
+			req.Uris = []string{dead, url}
+		case "two-good":
+			req.Uris = []string{url, origin().put("/blob/"+nextUUID(), ob)}
+		}
 		if u.path == "fetch" {
 			raw, err := hex.DecodeString(u.hash)
 			if err != nil {
